@@ -17,7 +17,7 @@ pub fn check(id: &str, tier: &str, seed: u64) -> Option<i32> {
             let max_entries = if thorough { 5000 } else { 600 };
             let cases = if thorough { 200_000 } else { 16_000 };
             let out = explore_generic(
-                || crate::tablecheck::strategy(max_entries),
+                || crate::tablecheck::mixed_strategy(max_entries),
                 cases,
                 seed,
                 if thorough { 3000 } else { 1200 },
